@@ -199,6 +199,7 @@ fn decode_limited(method: u16, raw: &[u8], limit: u64) -> Result<(Vec<u8>, Optio
     }
 }
 
+#[derive(Clone)]
 struct EndInfo {
     end_pos: usize,
     comment: Vec<u8>,
@@ -255,7 +256,7 @@ fn locate_end(b: &[u8], opts: &StrictOpts, errors: &mut Vec<String>, warnings: &
     if n_here != n_all {
         errors.push(format!("end record: {n_here} entries on this disk but {n_all} in total"));
     }
-    let mut info = EndInfo { end_pos: p, comment, count: n_all, cd_size: size32, cd_off: off32, zip64: None };
+    let info = EndInfo { end_pos: p, comment, count: n_all, cd_size: size32, cd_off: off32, zip64: None };
     let has_loc = p >= 20 && r32(b, p - 20) == Some(SIG_LOC64 as u64);
     if !has_loc {
         if disk == M16 || cd_disk == M16 {
@@ -271,7 +272,30 @@ fn locate_end(b: &[u8], opts: &StrictOpts, errors: &mut Vec<String>, warnings: &
         }
         return Some(info);
     }
-    // 4.3.15 locator
+    // A CANDIDATE locator.  When no field of the end record holds a marker nothing asks for ZIP64 records, and the four
+    // bytes may just as well be the tail of the last central record (external attributes + header offset: known
+    // finding K-F (ii)); a candidate lying inside the directory the end record names counts only if what it names
+    // validates.  With a marker present the ZIP64
+    // records are required and every defect of theirs is an error.
+    let any_marker = n_all == M16 || n_here == M16 || size32 == M32 || off32 == M32 || disk == M16 || cd_disk == M16;
+    let (mut e2, mut w2) = (vec![], vec![]);
+    let r = zip64_records(b, p, opts, info.clone(), (n_here, n_all, size32, off32), &mut e2, &mut w2);
+    // "ordinary bytes" only if the plain reading accounts for them: the directory the end record itself names ends
+    // exactly where the end record starts, i.e. the candidate lies INSIDE the last central record (a forced-ZIP64
+    // archive has its ZIP64 end record and locator between the directory and the end record)
+    let plain_covers = opts.pos(off32).and_then(|s| s.checked_add(size32)) == Some(p as u64);
+    if any_marker || !plain_covers || (r.is_some() && e2.is_empty()) {
+        errors.extend(e2);
+        warnings.extend(w2);
+        return r;
+    }
+    warnings.push(format!("false ZIP64 locator signature 20 bytes in front of the end record: what it would name does not validate ({}) and no field of the end record holds a marker; taken for ordinary bytes", e2.first().cloned().unwrap_or_default()));
+    Some(info)
+}
+
+/// 4.3.15 locator at `p - 20` + 4.3.14 ZIP64 end record it names.
+fn zip64_records(b: &[u8], p: usize, opts: &StrictOpts, mut info: EndInfo, f32s: (u64, u64, u64, u64), errors: &mut Vec<String>, warnings: &mut Vec<String>) -> Option<EndInfo> {
+    let (n_here, n_all, size32, off32) = f32s;
     let lp = p - 20;
     let l_disk = r32(b, lp + 4).unwrap();
     let l_off = r64(b, lp + 8).unwrap();
@@ -893,6 +917,26 @@ mod tests {
         let b = with_zip64_end(&[stored(b"a", b"xx")], |v, _| { let p = v.len() - 14; for k in 0..12 { v[p + k] = 0xFF; } });
         let v = strict_check(&b, &StrictOpts::default()).expect("forced markers are legal");
         assert!(v.warnings.iter().any(|w| w.contains("forced ZIP64")));
+    }
+
+    #[test]
+    fn false_locator_inside_the_directory() {
+        // K-F (ii): Unix mode 0o45520 (attributes 0x4B50_0000) + header offset 0x0706 spell PK\x06\x07 in the tail of
+        // the last central record, 20 bytes in front of the end record (the name is 14 bytes long)
+        let first = stored(b"p", &[b' '; 0x0706 - 31]);
+        let mut last = stored(b"fourteen-bytes", b"x");
+        last.off32 = None;
+        let mut b = archive(&[first, last], b"");
+        let p = b.len() - 22 - 20;
+        // external attributes of the last record: the two high bytes sit right in front of its header offset
+        b[p - 2..p + 2].copy_from_slice(&[0x00, 0x00, 0x50, 0x4b]);
+        if b[p + 2..p + 6] == [0x06, 0x07, 0x00, 0x00] {
+            let r = strict_parse(&b, &StrictOpts::default());
+            assert!(r.errors.is_empty(), "{:?}", r.errors);
+            assert!(r.warnings.iter().any(|w| w.contains("false ZIP64 locator signature")));
+        } else {
+            panic!("the test archive does not place the second header at 0x0706: {:02x?}", &b[p - 2..p + 6]);
+        }
     }
 
     #[test]
